@@ -45,6 +45,80 @@ func (w *World) runMonitors() {
 	w.monWill(h)
 	w.monTerminate(h)
 	w.monTakeover(h)
+	w.monResendOrder(h)
+}
+
+// C15: packets retransmitted after a resume go out in the order of their original transmission
+func (w *World) monResendOrder(h []ev) {
+	order := map[string][]packet.ID{} // session -> ids in order of their last first-time transmission
+	key := func(c int) string {
+		p := w.peers[c]
+		if p == nil || p.clientID == "" || p.clean {
+			return fmt.Sprintf("conn%d", c)
+		}
+		return "id:" + p.clientID
+	}
+	remove := func(k string, id packet.ID) {
+		l := order[k]
+		for i, x := range l {
+			if x == id {
+				order[k] = append(append([]packet.ID{}, l[:i]...), l[i+1:]...)
+				return
+			}
+		}
+	}
+	resuming := map[int][]packet.ID{} // connection -> ids still expected in the resend phase
+	for _, e := range h {
+		k := key(e.conn)
+		switch e.kind {
+		case "setup":
+			if e.txt == "1" {
+				resuming[e.conn] = append([]packet.ID{}, order[k]...)
+			} else {
+				delete(order, k)
+			}
+		case "sent", "sendfail":
+			var id packet.ID
+			isResend := false
+			switch p := e.pkt.(type) {
+			case *packet.Publish:
+				if p.Message.QOS == 0 {
+					continue
+				}
+				id, isResend = p.ID, p.Dup
+				if !p.Dup {
+					remove(k, id)
+					order[k] = append(order[k], id)
+				}
+			case *packet.Pubrel:
+				id = p.ID
+				if exp := resuming[e.conn]; len(exp) > 0 {
+					isResend = true
+				} else {
+					remove(k, id)
+					order[k] = append(order[k], id)
+				}
+			default:
+				continue
+			}
+			if exp := resuming[e.conn]; isResend && len(exp) > 0 {
+				if exp[0] != id {
+					w.hit("resend-order", fmt.Sprintf("connection %d retransmits id %d, but id %d was transmitted earlier (expected order %v)", e.conn, id, exp[0], exp))
+					resuming[e.conn] = nil
+				} else {
+					resuming[e.conn] = exp[1:]
+				}
+			}
+		case "stim-send":
+			switch p := e.pkt.(type) {
+			case *packet.Puback:
+				remove(k, p.ID)
+			case *packet.Pubcomp:
+				remove(k, p.ID)
+			}
+			resuming[e.conn] = nil
+		}
+	}
 }
 
 // C20: nothing before an accepted CONNECT; every request gets its response
@@ -329,7 +403,10 @@ func (w *World) monDelivery(h []ev) {
 					everSub[k][s.Topic] = true
 				}
 			case *packet.Unsubscribe:
-				// deliveries already queued may still arrive; only the "ever subscribed" check uses this
+				// deliveries already queued may still arrive ("ever subscribed"); the cap uses current subscriptions
+				for _, t := range p.Topics {
+					delete(subs[key(e.conn)], t)
+				}
 			case *packet.Publish:
 				if len(p.Message.Payload) > 0 {
 					pubs[string(p.Message.Payload)] = pub{p.Message.QOS, p.Message.Topic, p.Message.Retain}
@@ -383,6 +460,21 @@ func (w *World) monDelivery(h []ev) {
 			}
 			if !matched {
 				w.hit("delivery-without-subscription", fmt.Sprintf("connection %d (%s) received %s but never subscribed to a matching filter", e.conn, k, e.txt))
+			}
+			// the cap: the delivered QoS is the lower of the published QoS and the QoS granted to one of
+			// the currently matching subscriptions
+			allowed := map[packet.QOS]bool{}
+			for f, q := range subs[k] {
+				if tmatch(f, p.Message.Topic) {
+					m := orig.qos
+					if q < m {
+						m = q
+					}
+					allowed[m] = true
+				}
+			}
+			if len(allowed) > 0 && !allowed[p.Message.QOS] && !p.Dup {
+				w.hit("delivery-qos-not-capped", fmt.Sprintf("connection %d (%s) received %s: published QoS %d, matching grants allow %v", e.conn, k, e.txt, orig.qos, allowed))
 			}
 			if !capOK {
 				w.hit("delivery-qos-raised", fmt.Sprintf("connection %d received %s above the published QoS %d", e.conn, e.txt, orig.qos))
